@@ -1,4 +1,220 @@
+import AffVerif.Proofs.PruneSound
 import AffVerif.Model.Reduce
-/-! # C08 (theorems added below as they are proved) -/
+/-!
+# C08 — `reduce` preserves the function and only merges identical siblings
+
+`reduce` is modelled as the bottom-up sweep (`PT.reduceAux`); binary trees whose decisions have at most one
+row (`BinDec`, what `AffTree<2>` allows: a second row would make the label exceed the branching factor).
+-/
+set_option linter.unusedSectionVars false
+set_option linter.unusedVariables false
 namespace AV
+variable {α : Type} [Field α] [LinearOrder α] [IsStrictOrderedRing α]
+
+mutual
+/-- every decision has at most one predicate row -/
+def PT.BinDec : PT α → Prop
+  | .node _ c ks => (ks.allNone = false → c.aff.outdim ≤ 1) ∧ PKids.BinDec ks
+def PKids.BinDec : PKids α → Prop
+  | .nil => True
+  | .cons none r => PKids.BinDec r
+  | .cons (some t) r => PT.BinDec t ∧ PKids.BinDec r
+end
+
+theorem PKids.reduceAux_allNone (ks : PKids α) : (PKids.reduceAux ks).allNone = ks.allNone := by
+  match ks with
+  | .nil => simp [PKids.reduceAux, IKids.allNone]
+  | .cons none r => simp [PKids.reduceAux, IKids.allNone, PKids.reduceAux_allNone r]
+  | .cons (some k) r => simp [PKids.reduceAux, IKids.allNone]
+
+/-- what `mergeable?` finds: two terminal children with the same map; the label-0 child is returned -/
+theorem mergeable_spec (ks : PKids α) (a : PT α) (h : mergeable? ks = some a) :
+    ∃ b : PT α, ks = .cons (some a) (.cons (some b) .nil) ∧ a.kids.allNone = true ∧ b.kids.allNone = true ∧
+      a.val.aff = b.val.aff := by
+  unfold mergeable? at h
+  split at h
+  · rename_i a' b'
+    split at h
+    · rename_i hc
+      simp only [Bool.and_eq_true, decide_eq_true_eq] at hc
+      simp only [Option.some.injEq] at h
+      subst h
+      exact ⟨b', rfl, hc.1.1, hc.1.2, hc.2⟩
+    · simp at h
+  · simp at h
+
+theorem eval_terminal (t : PT α) (x : List α) (h : t.kids.allNone = true) : PT.eval t x = some (t.val.aff.apply x) := by
+  match t with
+  | .node i c ks => simp only [ITree.kids] at h; simp [PT.eval, h, ITree.val]
+
+mutual
+theorem PT.eval_reduceAux (isRoot : Bool) (t : PT α) (x : List α) (hb : PT.BinDec t) :
+    PT.eval (PT.reduceAux isRoot t) x = PT.eval t x := by
+  match t with
+  | .node i c ks =>
+    unfold PT.BinDec at hb
+    have hk := PKids.evalAt_reduceAux ks (c.aff.label x) x hb.2
+    have hall := PKids.reduceAux_allNone ks
+    simp only [PT.reduceAux]
+    cases isRoot with
+    | true => simp only [if_true, PT.eval, hall, hk]
+    | false =>
+      simp only [Bool.false_eq_true, if_false]
+      cases hm : mergeable? (PKids.reduceAux ks) with
+      | none => simp only [PT.eval, hall, hk]
+      | some a =>
+        obtain ⟨b, hks, ha, hbt, hab⟩ := mergeable_spec _ a hm
+        -- the node is a decision with both children terminals carrying the same map
+        have hnl : ks.allNone = false := by
+          rw [← hall, hks]; simp [IKids.allNone]
+        have hle := label_le_one c.aff x (hb.1 hnl)
+        simp only [PT.eval, hnl, Bool.false_eq_true, if_false]
+        rw [← hk, hks]
+        rcases (by omega : c.aff.label x = 0 ∨ c.aff.label x = 1) with h0 | h1
+        · rw [h0]; simp [PKids.evalAt]
+        · rw [h1]; simp only [PKids.evalAt]
+          rw [eval_terminal a x ha, eval_terminal b x hbt, hab]
+theorem PKids.evalAt_reduceAux (ks : PKids α) (l : Nat) (x : List α) (hb : PKids.BinDec ks) :
+    PKids.evalAt (PKids.reduceAux ks) l x = PKids.evalAt ks l x := by
+  match ks, l with
+  | .nil, _ => simp [PKids.reduceAux]
+  | .cons none r, 0 => simp [PKids.reduceAux, PKids.evalAt]
+  | .cons (some k) r, 0 =>
+    simp only [PKids.reduceAux, PKids.evalAt]
+    unfold PKids.BinDec at hb
+    exact PT.eval_reduceAux false k x hb.1
+  | .cons none r, l+1 =>
+    simp only [PKids.reduceAux, PKids.evalAt]
+    unfold PKids.BinDec at hb
+    exact PKids.evalAt_reduceAux r l x hb
+  | .cons (some k) r, l+1 =>
+    simp only [PKids.reduceAux, PKids.evalAt]
+    unfold PKids.BinDec at hb
+    exact PKids.evalAt_reduceAux r l x hb.2
+end
+
+/-- `reduce` never changes the value or definedness at any input -/
+theorem C08_eval (t : PT α) (x : List α) (hb : PT.BinDec t) : PT.eval (PT.reduce t) x = PT.eval t x :=
+  PT.eval_reduceAux true t x hb
+
+mutual
+theorem PT.size_reduceAux (isRoot : Bool) (t : PT α) : (PT.reduceAux isRoot t).size ≤ t.size := by
+  match t with
+  | .node i c ks =>
+    have hk := PKids.size_reduceAux ks
+    simp only [PT.reduceAux]
+    cases isRoot with
+    | true => simp only [if_true, ITree.size]; omega
+    | false =>
+      simp only [Bool.false_eq_true, if_false]
+      cases hm : mergeable? (PKids.reduceAux ks) with
+      | none => simp only [ITree.size]; omega
+      | some a =>
+        obtain ⟨b, hks, _, _, _⟩ := mergeable_spec _ a hm
+        rw [hks] at hk
+        simp only [ITree.size, IKids.size] at hk ⊢
+        omega
+theorem PKids.size_reduceAux (ks : PKids α) : (PKids.reduceAux ks).size ≤ ks.size := by
+  match ks with
+  | .nil => simp [PKids.reduceAux]
+  | .cons none r => simp only [PKids.reduceAux, IKids.size]; exact PKids.size_reduceAux r
+  | .cons (some k) r =>
+    simp only [PKids.reduceAux, IKids.size]
+    have := PT.size_reduceAux false k
+    have := PKids.size_reduceAux r
+    omega
+end
+
+/-- `reduce` never increases the number of nodes -/
+theorem C08_size (t : PT α) : (PT.reduce t).size ≤ t.size := PT.size_reduceAux true t
+
+mutual
+/-- no decision below the root has two terminal children carrying the same map -/
+def PT.Reduced (isRoot : Bool) : PT α → Prop
+  | .node _ _ ks => (isRoot = true ∨ mergeable? ks = none) ∧ PKids.Reduced ks
+def PKids.Reduced : PKids α → Prop
+  | .nil => True
+  | .cons none r => PKids.Reduced r
+  | .cons (some t) r => PT.Reduced false t ∧ PKids.Reduced r
+end
+
+theorem reduced_terminal (a : PT α) (h : a.kids.allNone = true) : PT.Reduced false a := by
+  match a with
+  | .node i c ks =>
+    simp only [ITree.kids] at h
+    unfold PT.Reduced
+    constructor
+    · right
+      match ks, h with
+      | .nil, _ => rfl
+      | .cons none r, _ => rfl
+    · exact allNone_reduced ks h
+where
+  allNone_reduced (ks : PKids α) (h : ks.allNone = true) : PKids.Reduced ks := by
+    match ks, h with
+    | .nil, _ => simp [PKids.Reduced]
+    | .cons none r, h => simp only [PKids.Reduced]; exact allNone_reduced r (by simpa [IKids.allNone] using h)
+
+mutual
+theorem PT.reduced_reduceAux (isRoot : Bool) (t : PT α) : PT.Reduced isRoot (PT.reduceAux isRoot t) := by
+  match t with
+  | .node i c ks =>
+    have hk := PKids.reduced_reduceAux ks
+    simp only [PT.reduceAux]
+    cases isRoot with
+    | true => simp only [if_true]; unfold PT.Reduced; exact ⟨Or.inl rfl, hk⟩
+    | false =>
+      simp only [Bool.false_eq_true, if_false]
+      cases hm : mergeable? (PKids.reduceAux ks) with
+      | none => simp only; unfold PT.Reduced; exact ⟨Or.inr hm, hk⟩
+      | some a =>
+        obtain ⟨b, _, ha, _, _⟩ := mergeable_spec _ a hm
+        exact reduced_terminal a ha
+theorem PKids.reduced_reduceAux (ks : PKids α) : PKids.Reduced (PKids.reduceAux ks) := by
+  match ks with
+  | .nil => simp [PKids.reduceAux, PKids.Reduced]
+  | .cons none r => simp only [PKids.reduceAux, PKids.Reduced]; exact PKids.reduced_reduceAux r
+  | .cons (some k) r =>
+    simp only [PKids.reduceAux, PKids.Reduced]
+    exact ⟨PT.reduced_reduceAux false k, PKids.reduced_reduceAux r⟩
+end
+
+/-- afterwards no decision below the root has two terminal children carrying the same affine function -/
+theorem C08_post (t : PT α) : PT.Reduced true (PT.reduce t) := PT.reduced_reduceAux true t
+
+mutual
+theorem PT.reduceAux_of_reduced (isRoot : Bool) (t : PT α) (h : PT.Reduced isRoot t) : PT.reduceAux isRoot t = t := by
+  match t with
+  | .node i c ks =>
+    unfold PT.Reduced at h
+    have hk := PKids.reduceAux_of_reduced ks h.2
+    simp only [PT.reduceAux, hk]
+    cases isRoot with
+    | true => simp
+    | false =>
+      simp only [Bool.false_eq_true, if_false]
+      rcases h.1 with h1 | h1
+      · simp at h1
+      · simp [h1]
+theorem PKids.reduceAux_of_reduced (ks : PKids α) (h : PKids.Reduced ks) : PKids.reduceAux ks = ks := by
+  match ks with
+  | .nil => simp [PKids.reduceAux]
+  | .cons none r =>
+    unfold PKids.Reduced at h
+    simp only [PKids.reduceAux, PKids.reduceAux_of_reduced r h]
+  | .cons (some k) r =>
+    unfold PKids.Reduced at h
+    simp only [PKids.reduceAux, PT.reduceAux_of_reduced false k h.1, PKids.reduceAux_of_reduced r h.2]
+end
+
+/-- `reduce` is idempotent -/
+theorem C08_idem (t : PT α) : PT.reduce (PT.reduce t) = PT.reduce t :=
+  PT.reduceAux_of_reduced true _ (C08_post t)
+
+/-- decisions whose children differ in matrix or bias are kept: the sweep replaces a decision only when
+    `mergeable?` finds two terminal children with equal maps -/
+theorem C08_keeps (i : Nat) (c : Content α) (ks : PKids α) (h : mergeable? (PKids.reduceAux ks) = none) :
+    PT.reduceAux false (.node i c ks) = .node i c (PKids.reduceAux ks) := by
+  simp [PT.reduceAux, h]
+
 end AV
